@@ -59,9 +59,72 @@ def measure(exe, name, fmt, lo, hi, count):
             "first_special": kv["first_special"], "n": int(kv["n"])}
 
 
+UNARY = [n for n in NAMES if n not in ("hypot", "atan2", "pow", "g_pow") and not n.startswith("c_")]
+BINARY = ["hypot", "atan2", "pow", "g_pow"]
+
+
+def special_points(fmt):
+    """arguments where C prescribes the result class: zeros, infinities, NaN, +-1 and their neighbours,
+    the smallest / largest magnitudes, a few ordinary values"""
+    inf, nan = float("inf"), float("nan")
+    one, S = bits(fmt, 1.0), 1 << (fmt - 1)
+    mw = 23 if fmt == 32 else 52
+    mags = [0, bits(fmt, inf), one, one - 1, one + 1, 1, 1 << mw, (1 << mw) - 1, bits(fmt, inf) - 1,
+            bits(fmt, 0.5), bits(fmt, 2.0), bits(fmt, 3.0), bits(fmt, 1.5), bits(fmt, 2.5), bits(fmt, 100.0),
+            bits(fmt, 1e-8), bits(fmt, 1e-30), bits(fmt, 1e10)]
+    pts = [bits(fmt, nan)]
+    for m in mags:
+        pts += [m, m | S]
+    return pts
+
+
+def point_requests():
+    reqs = []
+    for fmt in (32, 64):
+        P = special_points(fmt)
+        for n in UNARY:
+            for x in P:
+                reqs.append((n, fmt, x, None))
+        P2 = P[:11] + P[17:23]
+        for n in BINARY:
+            for x in P2:
+                for y in P2:
+                    reqs.append((n, fmt, x, y))
+    return reqs
+
+
+def measure_points(exe, reqs):
+    lines = [f"{n} {fmt} {x} {x} 1" + ("" if y is None else f" {y}") for (n, fmt, x, y) in reqs]
+    out = []
+    i = 0
+    while i < len(lines):   # the tool dies on an argument it cannot survive: record and resume after it
+        r = subprocess.run([exe], input="\n".join(lines[i:]) + "\n", capture_output=True, text=True, timeout=600)
+        got = [l for l in r.stdout.splitlines() if "max_ulp=" in l]
+        out += got
+        i += len(got)
+        if i < len(lines):
+            out.append("CRASH")
+            i += 1
+    res = []
+    for (n, fmt, x, y), l in zip(reqs, out):
+        e = {"name": n, "fmt": fmt, "x": x}
+        if y is not None:
+            e["y"] = y
+        if l == "CRASH":
+            e["crash"] = True
+        else:
+            kv = dict(t.split("=", 1) for t in l.split()[2:])
+            e.update({"max_ulp": float(kv["max_ulp"]), "special": int(kv["special"]), "got": kv.get("got"), "want": kv.get("want")})
+        res.append(e)
+    return res
+
+
 def main():
     with tempfile.TemporaryDirectory() as d:
         exe = build(d)
+        points = measure_points(exe, point_requests())
+        nbad = sum(1 for p in points if p.get("crash") or p.get("special") or p.get("max_ulp", 0) > 1000)
+        print("points:", len(points), "recorded as inaccurate:", nbad, flush=True)
         table = []
         for n in NAMES:
             for fmt in (32, 64):
@@ -70,7 +133,7 @@ def main():
                     m.update({"name": n, "fmt": fmt, "lo": lo, "hi": hi, "cell": tag})
                     table.append(m)
                     print(n, fmt, tag, {k: v for k, v in m.items() if k in ("max_ulp", "special", "crash")}, flush=True)
-    json.dump({"count": COUNT, "cells": table}, open(os.path.join(HERE, "approx_bounds.json"), "w"), indent=0)
+    json.dump({"count": COUNT, "cells": table, "points": points}, open(os.path.join(HERE, "approx_bounds.json"), "w"), indent=0)
 
 
 if __name__ == "__main__":
